@@ -77,7 +77,9 @@ class SRange:
 class LoopSpec:
     """Sidecar loop annotation, keyed by function + loop ordinal."""
 
-    def __init__(self, invariant=None, kinds=None, facts=None, unroll=False, havoc=None, index=None):
+    def __init__(self, invariant=None, kinds=None, facts=None, unroll=False, havoc=None, index=None, checkpoint=False):
+        self.checkpoint = checkpoint  # constant-bounded loop: unrolled, but the invariant is asserted and
+        # re-installed (by substitution through `kinds`) after every iteration so that terms stay small
         self.invariant = invariant  # (eng, st, k) -> [(name, Bool)]
         self.kinds = kinds or {}  # var -> 'int'|'bool'| callable(eng, st)->value
         self.facts = facts  # (eng, st, k) -> [Bool]  definitional instances
@@ -314,24 +316,32 @@ class Engine:
                 outs += self.exec_block(node.body if t else node.orelse, s)
                 continue
             base = s
-            brs = self.branch(s.fork(), t)
-            if len(brs) == 2:
-                (st_t, _), (st_f, _) = brs
-                o_t = self.exec_block(node.body, st_t)
-                o_f = self.exec_block(node.orelse, st_f)
-                if len(o_t) == 1 and len(o_f) == 1 and o_t[0][1] is None and o_f[0][1] is None:
-                    try:
-                        tz = z3.simplify(t)
+            tz = z3.simplify(t)
+            if z3.is_true(tz) or z3.is_false(tz):
+                outs += self.exec_block(node.body if z3.is_true(tz) else node.orelse, s)
+                continue
+            # optimistic: run both branches without a feasibility query; an infeasible branch that
+            # merges is harmless (its facts are guarded), otherwise feasibility is checked afterwards
+            if _simple_block(node.body) and _simple_block(node.orelse):
+                st_t, st_f = s.fork(), s.fork()
+                st_t.assume(tz)
+                st_f.assume(z3.Not(tz))
+                self.stats["forks"] += 1
+                try:
+                    o_t = self.exec_block(node.body, st_t)
+                    o_f = self.exec_block(node.orelse, st_f)
+                    if len(o_t) == 1 and len(o_f) == 1 and o_t[0][1] is None and o_f[0][1] is None:
                         merged = merge_states(tz, base, o_t[0][0], o_f[0][0])
                         self.stats["merges"] += 1
                         outs.append((merged, None))
                         continue
-                    except NoMerge:
-                        pass
-                outs += o_t + o_f
-            else:
-                for s2, b in brs:
-                    outs += self.exec_block(node.body if b else node.orelse, s2)
+                except NoMerge as e:
+                    self.stats.setdefault("nomerge", []).append(str(e)[:80])
+                except EngineUnsupported:
+                    pass  # may stem from an infeasible branch: redo with feasibility checks
+            brs = self.branch(s.fork(), t)
+            for s2, b in brs:
+                outs += self.exec_block(node.body if b else node.orelse, s2)
         return outs
 
     def st_Raise(self, node, st):
@@ -430,16 +440,31 @@ class Engine:
     def unroll_concrete(self, node, st, seq, k):
         live = [st]
         done = []
-        for x in seq:
+        spec = self.loop_spec(k)
+        cp = spec is not None and spec.checkpoint and spec.invariant is not None
+
+        def checkpoint(s, j, phase):
+            for nm, g in spec.invariant(self, s, z3.IntVal(j)):
+                self.oblige(f"{self.cur.qualname}.loop{k}.inv_{phase}.{nm}", s, g, kind="inv", site=node.lineno)
+            self.havoc_locals(node, s, spec, z3.IntVal(j))
+
+        if cp:
+            checkpoint(st, 0, "init")
+        for j, x in enumerate(seq):
             nxt = []
             for s in live:
                 self.loop_ord = k + 1
+                if cp and spec.facts:
+                    for f in spec.facts(self, s, z3.IntVal(j)):
+                        s.assume(f)
                 for s2, c in self.assign(node.target, x, s):
                     if c is not None:
                         done.append((s2, c))
                         continue
                     for s3, c3 in self.exec_block(node.body, s2):
                         if c3 is None or isinstance(c3, Continue):
+                            if cp:
+                                checkpoint(s3, j + 1, "step")
                             nxt.append(s3)
                         elif isinstance(c3, Break):
                             done.append((s3, None))
@@ -1163,6 +1188,15 @@ def _assigned_names(node):
         elif isinstance(n, ast.ExceptHandler) and n.name:
             names.add(n.name)
     return names
+
+
+def _simple_block(stmts):
+    """No loops, calls that may fork heavily, returns or raises: a candidate for if-merging."""
+    for st in stmts:
+        for n in ast.walk(st):
+            if isinstance(n, (ast.For, ast.While, ast.Return, ast.Raise, ast.Try, ast.Break, ast.Continue)):
+                return False
+    return True
 
 
 def _loops_in_order(node):
